@@ -22,8 +22,8 @@ Theorem every_schedule_waits_with_own_locks_only b sched t k l c m f p l' :
   holds_b (b_w s) t l' = true -> In l' (leaves (shape_of sc c)).
 Proof.
   intros W sc s PK BL CU HB.
-  pose proof (reach_GI_dec (blc03 sc) (blc03b sc) (blc03b_ok sc) false b sched W) as G.
-  change (run_sched_g false false) with run_sched in G. fold sc in G. fold s in G.
+  pose proof (reach_GI_dec (blc03 sc) (blc03b sc) (blc03b_ok sc) false false b sched W) as G.
+  change (run_sched_g false false false) with run_sched in G. fold sc in G. fold s in G.
   destruct (GI_blocked b _ _ _ t k l G PK BL) as [H [K [o [p' [A [CU' B]]]]]].
   rewrite CU in CU'. inversion CU'; subst o p'. cbn [blk_of] in B.
   assert (HH : writer_is (w_raw (b_w s) l') t = true \/ memb t (readers (w_raw (b_w s) l')) = true).
